@@ -1,5 +1,5 @@
 (* REGENERATED on every run by tools/props/c17.py (regen) from the `if (v_is_ptr && w_is_ptr)` block of
-   cdata_richcompare in src/c/_cffi_backend.c; the committed copy is Gen.v.snapshot.  Do not edit. *)
+   cdata_richcompare and from the whole body of cdata_hash in src/c/_cffi_backend.c; the committed copy is Gen.v.snapshot.  Do not edit. *)
 From Coq Require Import List.
 Import ListNotations.
 From Cffi Require Import C17.Cmp.
@@ -11,3 +11,7 @@ Definition ptr_branch : pbranch :=
             (OLe, {| pc_signed := false; pc_l := SV; pc_rel := OLe; pc_r := SW |});
             (OGt, {| pc_signed := false; pc_l := SV; pc_rel := OGt; pc_r := SW |});
             (OGe, {| pc_signed := false; pc_l := SV; pc_rel := OGe; pc_r := SW |}) ].
+
+(* cdata_hash: the arms tried, in source order, before `return _Py_HashPointer(c_data)` *)
+Definition hash_prog : list harm :=
+  [ HConvert ].
